@@ -194,7 +194,7 @@ package internal
 //@   loop 0 invariant @scan 0 <= rangeindex + 1 && rangeindex + 1 <= len(ref.Bins)
 //@   loop 1 invariant @scan 0 <= rangeindex + 1 && rangeindex + 1 <= 4611686018427387904
 //@   loop 2 invariant @fill biv <= iv && iv <= eiv + 1 && fresh(intvs) && len(intvs) == eiv + 1 &&
-//@       (forall t in 0..iv :: voff(intvs[t]) <= voff(c.Begin))
+//@       (forall t in 0..iv :: (okOff(intvs[t]) && voff(intvs[t]) <= voff(c.Begin)))
 //@   loop 2 decreases eiv + 1 - iv
 //@   ensures[C04] @neverfails result == nil
 //@   ensures[C04] @refs placed ==> (len(i.Refs) == recRefID(r) + 1 && i.LastRecord == recStart(r))
